@@ -23,7 +23,7 @@ Decompose(p, n0) == LET fresh == [k \in 1..(d - 1) |-> UnitV(MaxP, n0 + k)]
 GetBlock(p, k) == /\ Len(hist) < MaxCalls /\ k \in 1..d
                   /\ (p = NB => Len(hist) >= 1)
                   /\ IF blocks[p] = <<>>
-                     THEN /\ np + d - 1 <= MaxP
+                     THEN /\ np + (d - 1) + (d - 1) <= MaxP       \* (d - 1 more leaves are kept for the second partition of the driver)
                           /\ blocks' = [blocks EXCEPT ![p] = Decompose(p, np)]
                           /\ np' = np + d - 1
                      ELSE UNCHANGED <<blocks, np>>
